@@ -360,9 +360,32 @@ def opkind(op):
 
 
 # =========================================================================== exploration of the schedule tree
+def crash_states(write, state, d, path, pieces, seed):
+    """all deaths of one write started from directory `state`: returns (exit code of the uninterrupted run,
+    its report, [directory after dying behind operation k, k = 1..N]); N-th entry = the uninterrupted run"""
+    restore_dir(d, state)
+    code, info = run_write(write, path, None, pieces, seed)
+    n_ops = len(info["trace"])
+    full_state = read_dir(d)
+    posts = []
+    for k in range(1, n_ops):
+        restore_dir(d, state)
+        rc, _ = run_write(write, path, k, pieces, seed)
+        if rc != EXIT_CRASH:
+            raise HarnessError("C18: crash child for boundary %d/%d exited with %d: the write is not deterministic" % (k, n_ops, rc))
+        posts.append(read_dir(d))
+    if n_ops:
+        posts.append(full_state)
+    return code, info, posts
+
+
+def _describe_dir(state, versions):
+    return {fn: describe(v, versions) for fn, v in state.items()}
+
+
 def explore(write_of, versions, depth, pieces, picks, tmp, res, tags, ident, seed=0, max_fail=6):
     """write_of(i) -> callable(path) that writes version i (run in a forked child).
-    Appends failures to res; returns statistics."""
+    Appends failures to res; returns (executions, non-trivial keys, label counts, frontier per level)."""
     d = os.path.join(tmp, "run")
     os.makedirs(d, exist_ok=True)
     path = os.path.join(d, CK)
@@ -382,29 +405,19 @@ def explore(write_of, versions, depth, pieces, picks, tmp, res, tags, ident, see
         classes = {}  # shape -> list of (state, history, inside)
         for state, hist, had_inside in frontier:
             pre_shape = shape_of(state, versions[:level])
-            restore_dir(d, state)
-            code, info = run_write(write, path, None, pieces, seed)
+            code, info, posts = crash_states(write, state, d, path, pieces, seed)
             trace = info["trace"]
             n_ops = len(trace)
-            full_state = read_dir(d)
             if code == EXIT_RAISED:
                 lab("writer_raised")
                 key = ("raises", pre_shape)
                 if key not in reported and len(reported) < max_fail:
                     reported.add(key)
-                    res.fail("raises:" + info["raised"], {"message": info["message"], "schedule": hist, "directory_before": {k: describe(v, versions) for k, v in state.items()}},
+                    res.fail("raises:" + info["raised"], {"message": info["message"], "schedule": hist, "directory_before": _describe_dir(state, versions)},
                              prestate=pre_shape, level=level, bucket="%s/%s" % (tags["site"], pre_shape))
             if n_ops == 0:
                 lab("write_without_file_operations")
-            for k in range(1, n_ops + 1):
-                if k == n_ops:
-                    post, rc = full_state, code
-                else:
-                    restore_dir(d, state)
-                    rc, _ = run_write(write, path, k, pieces, seed)
-                    if rc != EXIT_CRASH:
-                        raise HarnessError("C18: crash child for boundary %d/%d exited with %d: the write is not deterministic" % (k, n_ops, rc))
-                    post = read_dir(d)
+            for k, post in enumerate(posts, 1):
                 evals += 1
                 inside = k < n_ops
                 step = {"write": level, "died_after_op": k, "of": n_ops, "op": trace[k - 1], "completed": (not inside) and code == 0}
@@ -420,9 +433,8 @@ def explore(write_of, versions, depth, pieces, picks, tmp, res, tags, ident, see
                         if key in reported or len(reported) >= max_fail:
                             continue
                         reported.add(key)
-                        res.fail(kind, {"what": text, "schedule": hist + [step],
-                                        "directory_before": {fn: describe(v, versions) for fn, v in state.items()},
-                                        "directory_after": {fn: describe(v, versions) for fn, v in post.items()}},
+                        res.fail(kind, {"what": text, "schedule": hist + [step], "directory_before": _describe_dir(state, versions),
+                                        "directory_after": _describe_dir(post, versions)},
                                  prestate=pre_shape, level=level, died_after=opkind(trace[k - 1]), bucket="%s/%s" % (tags["site"], pre_shape))
                     continue  # nothing is explored behind a state that already violates the property
                 sh = shape_of(post, known)
@@ -434,7 +446,7 @@ def explore(write_of, versions, depth, pieces, picks, tmp, res, tags, ident, see
             pick = picks[(level - 1) % len(picks)] if picks else 0
             frontier.append(members[(pick + i) % len(members)])
         lab("shapes_after_level%d" % level, len(classes))
-    return evals, keys, labels
+    return evals, keys, labels, frontier
 
 
 # =========================================================================== payloads and call sites
@@ -626,7 +638,7 @@ def _body(c, tmp):
     if len(set(versions)) != len(versions):
         raise HarnessError("C18: two versions of the checkpoint have identical text")
     ident = (c["site"], c["sizes"], c["two_d"], c["pieces"])
-    evals, keys, labels = explore(site.write_of, versions, c["depth"], c["pieces"], c["picks"], tmp, res, res.tags, ident, seed)
+    evals, keys, labels, _ = explore(site.write_of, versions, c["depth"], c["pieces"], c["picks"], tmp, res, res.tags, ident, seed)
     labels["site:" + c["site"]] = evals
     labels["file:" + size_band(max(len(v) for v in versions))] = evals
     labels["pieces:%d" % c["pieces"]] = evals
@@ -685,7 +697,7 @@ def selftest():
                     raise HarnessError("C18 selftest: counted file object and real file object disagree")
             os.remove(real)
             res = Res(tags={"site": "toy"})
-            evals, keys, labels = explore(wo, versions, 2, 2, [1], sub, res, res.tags, "toy")
+            evals, keys, labels, _ = explore(wo, versions, 2, 2, [1], sub, res, res.tags, "toy")
             kinds = {f.kind for f in res.fails}
             if kinds != expect:
                 raise HarnessError("C18 selftest: toy protocol %r gave %r, expected %r" % (protocol, sorted(kinds), sorted(expect)))
@@ -695,8 +707,164 @@ def selftest():
         shutil.rmtree(tmp, ignore_errors=True)
 
 
+# =========================================================================== syscall-level repetition under strace
+SYSCALLS = {  # operation kind of the forked model -> system calls python may use for it (strace counts each separately)
+    "open": ["openat", "open", "creat"],
+    "write": ["write"],
+    "close": ["close"],
+    "rename": ["rename", "renameat", "renameat2"],
+    "replace": ["rename", "renameat", "renameat2"],
+    "remove": ["unlink", "unlinkat"],
+    "unlink": ["unlink", "unlinkat"],
+}
+_TRACED = sorted({x for v in SYSCALLS.values() for x in v})
+_strace_state = {}
+
+
+def strace_ok():
+    """can this sandbox ptrace?  (strace kills /bin/true at its first exit_group -> terminated by SIGKILL)"""
+    if "ok" not in _strace_state:
+        ok = False
+        exe = shutil.which("strace")
+        if exe:
+            try:
+                r = subprocess.run([exe, "-f", "-qq", "-o", "/dev/null", "-e", "trace=exit_group", "-e", "inject=exit_group:signal=SIGKILL:when=1", "/bin/true"],
+                                   stdout=subprocess.DEVNULL, stderr=subprocess.DEVNULL, timeout=60)
+                ok = r.returncode in (-9, 137)
+            except (OSError, subprocess.SubprocessError):
+                ok = False
+        _strace_state["ok"] = ok
+        _strace_state["exe"] = exe
+    return _strace_state["ok"]
+
+
+def strace_write(casefile, version, path, trace, k):
+    """a real python process performs the write with no instrumentation at all and is killed by strace on
+    entering the system call that would be operation k+1 of `trace` (k = len(trace): not killed)"""
+    cmd = [_strace_state["exe"], "-f", "-qq", "-o", "/dev/null"]
+    for suf in SUFFIXES:
+        cmd += ["-P", path + suf]
+    cmd += ["-e", "trace=" + ",".join(_TRACED)]
+    if k < len(trace):
+        kind = opkind(trace[k])
+        if kind not in SYSCALLS:
+            raise HarnessError("C18: no system call known for operation %r" % trace[k])
+        m = 1 + sum(1 for op in trace[:k] if SYSCALLS.get(opkind(op)) == SYSCALLS[kind])
+        cmd += ["-e", "inject=%s:signal=SIGKILL:when=%d" % (",".join(SYSCALLS[kind]), m)]
+    cmd += [sys.executable, "-m", "vt.props.c18", "--child", casefile, str(version), path]
+    env = dict(os.environ)
+    env["PYTHONPATH"] = os.pathsep.join([REPO, os.path.join(HERE, ".deps"), HERE])
+    env["PYTHONDONTWRITEBYTECODE"] = "1"
+    r = subprocess.run(cmd, env=env, cwd=os.path.dirname(path), stdout=subprocess.DEVNULL, stderr=subprocess.PIPE, timeout=600)
+    killed = r.returncode in (-9, 137)
+    if k < len(trace) and not killed:
+        raise HarnessError("C18: strace child was not killed at operation %d (%s): rc=%s %s" % (k + 1, trace[k], r.returncode, r.stderr.decode()[-800:]))
+    if k >= len(trace) and r.returncode != 0:
+        raise HarnessError("C18: uninterrupted strace child failed: rc=%s %s" % (r.returncode, r.stderr.decode()[-800:]))
+
+
+def _child_main(argv):
+    casefile, version, path = argv[0], int(argv[1]), argv[2]
+    torch.set_default_dtype(torch.float64)
+    torch.set_num_threads(1)
+    with open(casefile) as f:
+        case = json.load(f)
+    site = Site(case)
+    sys.stdout = sys.stderr = io.StringIO()
+    torch.manual_seed(case.get("torch_seed", 0))
+    site.write_of(version)(path)
+    os._exit(0)
+
+
+def syscall_cases(tier="thorough"):
+    @st.composite
+    def gen(draw):
+        level = draw(st.sampled_from([1, 2, 2]))
+        site = draw(st.sampled_from(SITES))
+        npar = draw(st.integers(1, 12))
+        sizes = [draw(st.one_of(st.integers(1, 12), st.integers(1, 900))) for _ in range(npar)]
+        scales = draw(st.lists(fl(0.1, 10.0), min_size=level + 1, max_size=level + 1, unique=True))
+        return {"site": site, "sizes": sizes, "two_d": [draw(st.booleans()) for _ in sizes], "scales": scales, "level": level,
+                "picks": draw(st.lists(st.integers(0, 50), min_size=2, max_size=2)),
+                "points": draw(st.lists(st.integers(0, 10**6), min_size=2, max_size=3)),
+                "torch_seed": draw(st.integers(0, 2**31 - 1))}
+
+    return gen()
+
+
+def body_syscall(c):
+    tmp = tempfile.mkdtemp(prefix="vt-c18-")
+    try:
+        return _body_syscall(c, tmp)
+    finally:
+        shutil.rmtree(tmp, ignore_errors=True)
+
+
+def _body_syscall(c, tmp):
+    res = Res(tags={"site": c["site"], "cls": c["site"]})
+    if not strace_ok():
+        res.labels = {"strace_unavailable(ptrace not permitted): case skipped": 1}
+        res.evals = 1
+        return res
+    site = Site(c)
+    seed = c.get("torch_seed", 0)
+    level = c["level"]
+    versions, info = reference_texts(site.write_of, level + 1, tmp, 1, seed)
+    if versions is None:
+        return res.fail("raises:" + info["raised"], {"message": info["message"], "where": "write into an empty directory"}, prestate="empty", bucket=c["site"] + "/empty")
+    casefile = os.path.join(tmp, "case.json")
+    with open(casefile, "w") as f:
+        json.dump(c, f)
+    d = os.path.join(tmp, "run")
+    os.makedirs(d)
+    path = os.path.join(d, CK)
+    state, hist, had_inside = {CK: versions[0]}, [], False
+    if level == 2:  # start from a directory left by a death during write 1 (forked model), one that still satisfies the property
+        scratch = Res(tags=res.tags)
+        _, _, _, frontier = explore(site.write_of, versions[:2], 1, 1, [c["picks"][1]], tmp, scratch, res.tags, None, seed)
+        if not frontier:
+            return res
+        state, hist, had_inside = frontier[c["picks"][0] % len(frontier)]
+    pre_shape = shape_of(state, versions[:level])
+    code, info, posts = crash_states(site.write_of(level), state, d, path, 1, seed)
+    trace = info["trace"]
+    n = len(trace)
+    if code != 0 or n == 0:
+        return res  # reported by the sub-check 'schedules'
+    ks = sorted({1 + x % n for x in c["points"]})
+    keys = []
+    labels = {"pre:" + pre_shape: len(ks), "site:" + c["site"]: len(ks)}
+    for k in ks:
+        restore_dir(d, state)
+        strace_write(casefile, level, path, trace, k)
+        post = read_dir(d)
+        labels["killed_entering:" + (opkind(trace[k]) if k < n else "nothing(completed)")] = labels.get("killed_entering:" + (opkind(trace[k]) if k < n else "nothing(completed)"), 0) + 1
+        step = {"write": level, "died_after_op": k, "of": n, "op": trace[k - 1], "mechanism": "strace SIGKILL"}
+        if post != posts[k - 1]:
+            res.fail("model_mismatch", {"what": "a real process killed by strace leaves a different directory than the forked model", "schedule": hist + [step],
+                                        "strace": _describe_dir(post, versions), "fork_model": _describe_dir(posts[k - 1], versions)},
+                     prestate=pre_shape, level=level, bucket=c["site"] + "/model")
+        for kind, text in judge(post, versions[: level + 1]):
+            res.fail(kind, {"what": text, "schedule": hist + [step], "directory_before": _describe_dir(state, versions), "directory_after": _describe_dir(post, versions)},
+                     prestate=pre_shape, level=level, died_after=opkind(trace[k - 1]), bucket="%s/%s" % (c["site"], pre_shape))
+        if k < n and level == 2 and had_inside:
+            keys.append((c["site"], c["sizes"], c["two_d"], [h["died_after_op"] for h in hist] + [k]))
+    res.evals = len(ks)
+    res.keys = keys
+    res.labels = labels
+    return res
+
+
 def subchecks(tier):
     subs = [
-        Sub("schedules", body, strategy=lambda: cases(tier), quick=72, thorough=2400, pretags=pretags, shrink_s=40),
+        Sub("schedules", body, strategy=lambda: cases(tier), quick=32, thorough=800, pretags=pretags, shrink_s=20),
     ]
+    if tier == "thorough":
+        subs.append(Sub("syscall", body_syscall, strategy=lambda: syscall_cases(tier), quick=2, thorough=96, pretags=pretags, shrink_s=30))
     return subs
+
+
+if __name__ == "__main__":
+    if len(sys.argv) >= 5 and sys.argv[1] == "--child":
+        _child_main(sys.argv[2:])
+    sys.exit(2)
